@@ -46,6 +46,9 @@ def skeletons(tier):
                 _sk("a", "a", nsteps=2, iters="all", nsteps_t=1), _sk("g", "a", nsteps=2, iters="all", nsteps_t=1),
                 _sk("a", "a", nsteps=2, self_=True), _sk("ag", "ag", self_=True), _sk("aA", "a"), _sk("a", "aA"),
                 _sk("a", "a", test_ranks=3, test_sel=[0, 2], same_ranks=True),
+                dict(_sk("a", "ab"), id="a|ab-same-labels", labels=["run", "run"]),
+                dict(_sk("ag", "a"), id="ag|a-same-labels", labels=["run", "run"]),
+                dict(_sk("a", "ag"), id="a|ag-labels", labels=["before", "after"]),
                 # histories of calls on the same LabeledTrace objects (rank and iteration numbers overlap in value)
                 dict(_sk("a", "a", nsteps=1, nsteps_t=2, test_ranks=2, same_ranks=True), id="hist-a|a-r01i2-r0i12", step0=1,
                      history=[[[0, 1], [2]], [[0], [1, 2]]]),
@@ -217,7 +220,20 @@ def run(ctx):
     test_ranks = list(sk.get("test_sel", range(ntr)))
     if ntr > 1:
         kw["test_rank"] = test_ranks
+    if sk.get("labels"):
+        # LabeledTrace objects with user-chosen labels (equal labels are accepted: the library renames one and warns)
+        tc_, tt_ = TD.LabeledTrace(sk["labels"][0], t=tc), TD.LabeledTrace(sk["labels"][1], t=tt)
+        od_first = TD.TraceDiff.ops_diff(tc_, tt_, device_type=dev, **kw) if not P["short"] else None
+        tc, tt = tc_, tt_
     df = TD.TraceDiff.compare_traces(tc, tt, device_type=dev, use_short_name=P["short"], **kw)
+    if sk.get("labels"):
+        # the count/duration columns carry the (possibly renamed) labels: map them back to the generic names
+        cols_ = list(df.columns)
+        lc, lt = tc.label, tt.label
+        df = df.rename(columns={f"{lc}_counts": "Control_counts", f"{lt}_counts": "Test_counts",
+                                f"{lc}_total_duration": "Control_total_duration",
+                                f"{lt}_total_duration": "Test_total_duration"})
+        ctx.prove(lc != lt and len(set(cols_)) == len(cols_), "labels-distinct-after-the-call", {"columns": cols_})
     want_c = summarize(it_c, [0], ci, P["dev"], P["short"], shorten)
     want_t = summarize(it_t, test_ranks if not P["self"] else [0], ti, P["dev"], P["short"], shorten)
     names = [str(x) for x in ctx.cells(df.index)]
@@ -247,7 +263,7 @@ def run(ctx):
         ctx.prove(n in want_c or n in want_t, "no-foreign-rows", {"name": n})
     # ---- ops_diff: five classes partition the rows and follow their definitions -------------
     if not P["short"]:
-        od = TD.TraceDiff.ops_diff(tc, tt, device_type=dev, **kw)
+        od = TD.TraceDiff.ops_diff(tc, tt, device_type=dev, **kw) if not sk.get("labels") else od_first
         cls_of = {}
         for k, lst in od.items():
             for n in lst:
